@@ -25,8 +25,8 @@ fn main() {
 	let seed: u64 = std::env::var("VERIF_SEED").ok().and_then(|s| s.trim().parse::<i64>().ok()).map(|x| x as u64).unwrap_or(1);
 	match args[1].as_str() {
 		"list" => {
-			for m in monitors::all() {
-				println!("{}", m.id());
+			for m in monitors::IDS {
+				println!("{}", m);
 			}
 		}
 		"selfcheck" => {
